@@ -52,6 +52,8 @@ def drain_exception_escape():
         try:
             await sock.send(unencodable_at5_message(), S.RETRY_IDEMPOTENT)
             out["raised"] = None
+        except KeyboardInterrupt:
+            raise
         except BaseException as e:  # noqa: BLE001
             out["raised"] = type(e).__name__
         await sock.close()
@@ -220,6 +222,8 @@ def run_library(h, key):
     for fn in LIBRARY[key]:
         try:
             res = fn()
+        except KeyboardInterrupt:
+            raise   # the wall-clock watchdog of the native reading (pyvc.replay.NativeTimeout)
         except BaseException as e:  # noqa: BLE001
             h.oblige(f"schedule {fn.__name__} runs", False, detail=f"{type(e).__name__}: {e}")
             continue
